@@ -11,7 +11,7 @@ RULE = ("(a) random interior (s,z) per cone structure incl. mnl, then 1..30 upda
         "(c) conelp/coneqp solves with an observing kktsolver.  class signature = monitor x cone shape class x factory x storage x history class")
 ASSUMPTIONS = ["W is reconstructed from (dnl, d, beta, v, r) by its documented definition; di, dnli, rti are checked against it",
                "identities are measured relative to the norms of the factors (threshold 1e-9 for random scalings, scaled by the condition of W in converging histories)"]
-REQUIRED_COUNTERS = ["a.compute", "a.update", "a.history>=10", "b.ldl", "b.ldl2", "b.chol", "b.chol2", "b.qr", "b.chol2.singular-branch",
+REQUIRED_COUNTERS = ["a.compute", "a.update", "a.history>=10", "b.structurally-sparse", "b.ldl", "b.ldl2", "b.chol", "b.chol2", "b.qr", "b.chol2.singular-branch",
                      "b.chol2.refactor", "b.sparse", "b.mnl", "b.H", "b.interleaved", "c.W-observed", "c.frame-identity-checked",
                      "c.conelp", "c.coneqp"]
 
@@ -185,12 +185,30 @@ def run(ctx):
             break
         else:
             ctx.count("generator.none"); return
+        structural = name != "qr" and rng.random() < 0.3
+        if structural:
+            # genuinely sparse pattern (structural zeros, n up to 12): sparse Cholesky orderings become non-trivial
+            n = rng.randint(5, 12); p = rng.randint(0, 3); extra = rng.randint(1, n // 2 + 1)
+            dims = Dims(n + extra)
+            ctx.count("b.structurally-sparse")
         mnl = dims.mnl
         cdims = Dims(dims.l, dims.q, dims.s)       # linear part
         # GG = [Df; G] of full column rank together with A and H
         for _ in range(30):
-            GGp = gp.rand_sv_matrix(rng, dims.Np, n)
-            A = gp.rand_sv_matrix(rng, p, n, 0.5, 2.0)
+            if structural:
+                rows = [[-1.0 if j == i else 0.0 for j in range(n)] for i in range(n)]
+                for _e in range(dims.l - n):
+                    r_ = [0.0] * n
+                    for j in rng.sample(range(n), rng.randint(2, 3)): r_[j] = rng.gauss(0, 1)
+                    rows.append(r_)
+                rng.shuffle(rows)
+                GGp = np.array(rows)
+                A = np.zeros((p, n))
+                for i in range(p):
+                    for j in rng.sample(range(n), rng.randint(2, 3)): A[i, j] = rng.gauss(0, 1)
+            else:
+                GGp = gp.rand_sv_matrix(rng, dims.Np, n)
+                A = gp.rand_sv_matrix(rng, p, n, 0.5, 2.0)
             B = gp.rand_sv_matrix(rng, n, r, 0.5, 2.0) if r else np.zeros((n, 0))
             stack = np.vstack([B.T, GGp, A])
             if stack.shape[0] >= n and np.linalg.svd(stack, compute_uv=False)[-1] >= 0.2 and \
@@ -201,7 +219,11 @@ def run(ctx):
         GG = gp.unpack_iso(GGp, dims)
         Df, G = GG[:mnl], GG[mnl:]
         H = B @ B.T if withH else None
-        sparse = rng.random() < 0.4
+        sparse = rng.random() < 0.4 or structural
+        if withH and structural:
+            H = np.diag(np.diag(H))          # keep S = H + G'W^-2 G sparse
+            if np.linalg.svd(np.vstack([np.sqrt(np.abs(H)), GGp, A]), compute_uv=False)[-1] < 0.2:
+                H = None; withH = False
         Gm, Am = sr.mk(G, sparse), sr.mk(A, sparse and rng.random() < 0.6)
         Dfm = sr.mk(Df, sparse and rng.random() < 0.5) if mnl else None
         Hm = sr.mk(H, sparse and rng.random() < 0.5) if withH else None
